@@ -30,7 +30,7 @@ CLAIMED = {
              "index arithmetic of C06, which is not decided."),
     "C01": dict(
         cat="other", ref="DESIGN.md §5 C01",
-        technique="static analysis: reader-vs-writer wire-schema comparison per version region (summary composition + version partial evaluation), CRTP wiring census, count/array coherence dataflow, registry census",
+        technique="static analysis: reader-vs-writer wire-schema comparison per version region (summary composition + version partial evaluation), CRTP wiring census, count/array coherence dataflow, registry census, kind/width agreement of the hand-written Read/Write pairs per constant width argument",
         text="Decides read/write symmetry of the code, the structural necessary condition of an exact round trip: for every registered "
              "class, the header and the hand-written pairs, in every version region, the ordered member fields (path, width, loops, "
              "data gates) transferred by Get equal those transferred by Put; mode-specific sections must be in a triaged table; each "
@@ -41,11 +41,12 @@ CLAIMED = {
              "two-round bound are not decided; NDS headers are outside the supported version space (alias table)"),
     "C02": dict(
         cat="other", ref="DESIGN.md §5 C02",
-        technique="static analysis: write-path effect analysis (ordered transfer/mutation events of every class's Put in write mode by summary composition), triaged mutation census, effect containment of the pre-write pipeline",
+        technique="static analysis: write-path effect analysis (ordered transfer/mutation events of every class's Put in write mode by summary composition), triaged mutation census, effect containment of the pre-write pipeline, path-based effect summaries of the const queries against the written member paths",
         text="Decides the structural clauses: in write mode no member is changed after it was written (else save #2 differs from "
              "save #1), every other write-mode mutation is a counted-array resize or an entry of a triaged one-symbol-wide table, and "
              "FinalizeData's call tree assigns only derived data. Found and fixed this way: FO76 shader type drift, OB tangent flag "
-             "cleared by saving; recorded as known findings: match groups cleared after writing, hasVertWeights clamp.",
+             "cleared by saving; recorded as known findings: match groups cleared after writing, hasVertWeights clamp. R2.5: no public const query of NifFile "
+             "changes a member that a Put writes (known finding: GetShapePartitions converts strip partitions / drops unmapped triangles in place).",
         note="value changes hidden inside an accepted derivation (a wrong dataSize formula) and idempotence of FinalizeData on "
              "values are not decided; canonical member paths are assumed not to alias"),
     "C03": dict(
@@ -71,12 +72,14 @@ CLAIMED = {
              "and not decided; depends on C05"),
     "C07": dict(
         cat="other", ref="DESIGN.md §5 C07",
-        technique="static analysis: byte-accounting pairing in NiOStream (symbolic sum comparison), single-writer census, save-protocol typestate over NifFile::Save, string-table pairing",
+        technique="static analysis: byte-accounting pairing in NiOStream (symbolic sum comparison), single-writer census, save-protocol typestate over NifFile::Save, string-table pairing, interval analysis of length-prefix locals in writers (no wrap reaches a stream call)",
         text="Sizes are re-measured on every save, so the size-table clause reduces to structure: every NiOStream method counts "
              "exactly the bytes it hands to the stream; nothing on the save path writes to the ostream except through NiOStream; Save "
              "resets the counter after the header and every block, captures each block's size into its own slot, writes the footer "
              "and back-patches exactly GetNumBlocks() 4-byte sizes at the recorded position; string count/array stay paired, strings "
-             "are found before appended and the maximum length is refreshed.",
+             "are found before appended and the maximum length is refreshed; a length prefix adjusted arithmetically in a fixed-width "
+             "local before it is written cannot wrap (found and fixed this way: the one-byte prefix of a 255-character header string "
+             "with null terminator).",
         note="uint32 overflow of sizes is not decided; header Get/Put layout agreement is decided under C01"),
     "C08": dict(
         cat="translation_validation", ref="DESIGN.md §5 C08",
